@@ -44,7 +44,8 @@ SOURCES = {
                                  'fill-rotation', 'skew-2d', 'lat-trcl']),
     'c07': (gen_lat.build_hex, ['regular-6', 'irregular-8']),
     'dup': (None, ['cards', 'by-transform', 'near', 'hostile-opposite',
-                   'hostile-many', 'empty-filler-shared']),
+                   'hostile-many', 'empty-filler-shared',
+                   'torus-rotated-same-centre']),
 }
 _PER = {'quick': 2, 'thorough': 60}
 FLAGS = ['--skip-deduplication', '--always-inline-filling',
@@ -84,6 +85,8 @@ def build_dup(rng, fam):
         return gen_hostile.build(rng, 'dedup-many')
     if fam == 'empty-filler-shared':
         return gen_hostile.build(rng, 'empty-filler-shared')
+    if fam == 'torus-rotated-same-centre':
+        return build_torus_pair(rng)
     deck = M.Deck(f'C13 dup {fam}')
     deck.world = 12.0
     pos = rnd(rng, -2, 2)
@@ -121,6 +124,35 @@ def build_dup(rng, fam):
     deck.surfs.append(M.Surf(WORLD_SURF, 'so', [deck.world]))
     deck.cells.append(M.Cell(900, mat=0, geom=M.S(WORLD_SURF), imp={'n': '0'}))
     deck.tags.add(f'dup.{fam}')
+    return deck
+
+
+def build_torus_pair(rng):
+    '''An axis-aligned torus centred at the origin and the same card
+    rotated about the origin: identical TORUS parameters, one of them with a
+    TRANSFORM block.  They must not be merged.'''
+    from ..gen_surf import motion_of_class
+    deck = M.Deck('C13 dup torus-rotated-same-centre')
+    deck.world = 12.0
+    kind = rng.choice(['tx', 'ty', 'tz'])
+    par = [0, 0, 0, rnd(rng, 3, 5), rnd(rng, 0.6, 1.2), rnd(rng, 0.6, 1.2)]
+    rot = motion_of_class(rng, 'generic')
+    mot = Motion([0, 0, 0], rot.b)
+    deck.trs.append(tr_card(rng, 3, mot, rng.choice(['12', 'star'])))
+    deck.surfs += [M.Surf(1, kind, par), M.Surf(2, kind, list(par), tr=3),
+                   M.Surf(3, 'so', [rnd(rng, 6.5, 8)])]
+    geoms = [M.S(-1), M.AND(M.S(-2), M.S(1)),
+             M.AND(M.S(1), M.S(2), M.S(-3)), M.S(3)]
+    for num, geom in enumerate(geoms, start=1):
+        deck.cells.append(M.Cell(num, mat=num, rho=f'-{num}.5',
+                                 geom=M.AND(geom, M.S(-WORLD_SURF)),
+                                 imp={'n': '1'}))
+        deck.mats.append(M.Material(num, [('13027', '1')]))
+    deck.surfs.append(M.Surf(WORLD_SURF, 'so', [deck.world]))
+    deck.cells.append(M.Cell(900, mat=0, geom=M.S(WORLD_SURF), imp={'n': '0'}))
+    deck.hints = [[par[3], 0, 0], [0, par[3], 0], [0, 0, par[3]],
+                  [-par[3], 0, 0]]
+    deck.tags.add('dup.torus-rotated-same-centre')
     return deck
 
 
